@@ -178,6 +178,41 @@ func (e *Engine) installIntrinsics(pkgPath string) {
 		}
 		return BoolV{And(conj...)}, true
 	}
+	// vrfSameSet: every element of a occurs in b and vice versa (multiplicities ignored); vrfNoDup: a has no repeated element
+	listArg := func(e *Engine, c *Ctx, v Value) []ListEntry {
+		iv := v.(IfaceV)
+		if len(iv.Alts) != 1 || iv.Alts[0].Typ == nil {
+			unsup("list intrinsic: argument must be a slice of one static type")
+		}
+		et := iv.Alts[0].Typ.Underlying().(*types.Slice).Elem()
+		return e.listView(c, iv.Alts[0].V.(SliceV), et)
+	}
+	e.intercept[p+"vrfSameSet"] = func(e *Engine, fr *Frame, c *Ctx, a []Value, _ *ssa.CallCommon) (Value, bool) {
+		la, lb := listArg(e, c, a[0]), listArg(e, c, a[1])
+		var conj []*Term
+		sub := func(x, y []ListEntry) {
+			for _, en := range x {
+				var disj []*Term
+				for _, o := range y {
+					disj = append(disj, And(o.G, e.deepEqual(c, en.V, o.V, map[[2]int]bool{})))
+				}
+				conj = append(conj, Or(Not(en.G), Or(disj...)))
+			}
+		}
+		sub(la, lb)
+		sub(lb, la)
+		return BoolV{And(conj...)}, true
+	}
+	e.intercept[p+"vrfNoDup"] = func(e *Engine, fr *Frame, c *Ctx, a []Value, _ *ssa.CallCommon) (Value, bool) {
+		la := listArg(e, c, a[0])
+		var conj []*Term
+		for i := range la {
+			for j := i + 1; j < len(la); j++ {
+				conj = append(conj, Not(And(la[i].G, la[j].G, e.deepEqual(c, la[i].V, la[j].V, map[[2]int]bool{}))))
+			}
+		}
+		return BoolV{And(conj...)}, true
+	}
 	e.intercept[p+"vrfDeepEqual"] = func(e *Engine, fr *Frame, c *Ctx, a []Value, _ *ssa.CallCommon) (Value, bool) {
 		return BoolV{e.deepEqual(c, a[0], a[1], map[[2]int]bool{})}, true
 	}
